@@ -139,15 +139,28 @@ type lockAccess struct {
 	write bool
 	ok    bool
 	why   string
+	mode  byte // how it is protected: 'h' holds the lock itself, 'c' every caller holds it, 'i' init phase / object under construction
 }
 
 // isWriteUse reports whether the address produced by fa is written through
 // (store, or map mutation / append-assign of the loaded value).
 func isWriteUse(fa *ssa.FieldAddr) bool {
+	return isWriteUseAddr(fa, 0)
+}
+
+func isWriteUseAddr(fa ssa.Value, depth int) bool {
 	for _, ref := range *fa.Referrers() {
 		switch x := ref.(type) {
 		case *ssa.Store:
 			if x.Addr == fa {
+				return true
+			}
+		case *ssa.FieldAddr: // a part of a struct kept by value in the guarded field is written
+			if x.X == fa && depth < 4 && isWriteUseAddr(x, depth+1) {
+				return true
+			}
+		case *ssa.IndexAddr: // an element of an array kept by value in the guarded field
+			if x.X == fa && depth < 4 && isWriteUseAddr(x, depth+1) {
 				return true
 			}
 		case *ssa.UnOp: // load: a map mutation on the loaded value counts as a write
@@ -305,21 +318,21 @@ func (r *Run) LockCheck(sp LockSpec) {
 			acc := lockAccess{fn: fn, instr: in, field: fname, write: w, base: selBase(r.D.D(fa.X))}
 			switch {
 			case isInit(fn):
-				acc.ok, acc.why = true, "init-phase function"
+				acc.ok, acc.why, acc.mode = true, "init-phase function", 'i'
 			case func() bool { a := baseAlloc(fa.X); return a != nil && paramSpill(a) == nil }():
-				acc.ok, acc.why = true, "object under construction (local allocation)"
+				acc.ok, acc.why, acc.mode = true, "object under construction (local allocation)", 'i'
 			default:
 				if h == nil {
 					h = heldOf(fn)
 				}
 				mu := "&(" + acc.base + "." + sp.Mutex + ")"
 				if m, ok := h[in][mu]; ok && (!w || m == 'W') {
-					acc.ok, acc.why = true, "holds "+mu
+					acc.ok, acc.why, acc.mode = true, "holds "+mu, 'h'
 				} else if ok && w {
 					acc.why = "write under read lock " + mu
 				} else if p, isP := fa.X.(*ssa.Parameter); isP {
 					if ok2, why := callersHold(fn, paramIndex(p), w, 0); ok2 {
-						acc.ok, acc.why = true, "all callers hold the lock"
+						acc.ok, acc.why, acc.mode = true, "all callers hold the lock", 'c'
 					} else {
 						acc.why = "not holding " + mu + "; " + why
 					}
@@ -366,6 +379,8 @@ func (r *Run) LockCheck(sp LockSpec) {
 			fmt.Sprintf("%s of %s.%s guarded by %s: %s", kk.kind, sp.Struct, kk.field, sp.Mutex, a.why))
 	}
 	r.Check("lock-table:"+short, n > 0, "-", fmt.Sprintf("%d guarded accesses of %s found in the module", n, sp.Struct))
+	// publication discipline (rules_t7c17pub.go): a guarded reference field protects the object behind it
+	r.lockPublication(sp, named, st, accs, heldOf)
 }
 
 // LockDiscover (thorough tier): every mutex-bearing struct of the given
